@@ -233,8 +233,11 @@ def d5(ctx, fx):
         r = cfg.reachable(fn, starts, removed_blocks=heads)
         errs = [e for e in cfg.exit_sites(fn) if e["kind"] in ("Err", "residual") and e["bb"] in r]
         sinks = [bb for (f, bb, _n, l) in U.obj_sinks if f is fn and bb in r]
+        early = [e for e in cfg.exit_sites(fn) if e["kind"] not in ("Err", "residual", "None") and e["bb"] in r] if heads else []
         if errs or sinks:
             ctx.finding("C12.D5", fn, "no-match", "a digest that matches no disclosure (decoy / undisclosed) leads to %s instead of being skipped" % ("an Err" if errs else "an insert"), line=line)
+        elif early:
+            ctx.finding("C12.D5", fn, "no-match-aborts", "a digest that matches no disclosure (a decoy) makes the function return early: the digests after it in the `_sd` list are never processed", line=line)
         else:
             ctx.ok("C12.D5", fn, "no-match", "a digest that matches no disclosure is skipped (continue / Ok(None))", line=line)
     # holder: the `_sd` digests are filtered through a lookup whose failure yields None
